@@ -307,6 +307,8 @@ def decide(prop, tier, seed):
             json.dump(doc, fh, indent=1)
         vio_lines.append(f'VIOLATION property={prop} replay={rp}{suffix}')
 
+    # obligations listed as open known findings are reported separately: they are neither counted as discharged nor as part of the claim
+    obligations -= len(known_hits)
     wall = time.time() - t0
     if not obligations and not undecided:
         undecided.append('no obligations were generated for this property (vacuous check)')
@@ -325,7 +327,8 @@ def decide(prop, tier, seed):
             canaries=dict(total=canary_total, failed_as_required=canary_ok),
             samples=samples,
             undecided=undecided,
-            known_findings=[k['obligation'] for k, _ in known_hits],
+            known_findings=[dict(obligation=k['obligation'], input=k.get('input'), note=k.get('note')) for k, _ in known_hits],
+            known_findings_excluded_from_obligations=len(known_hits),
             not_covered=spec.get('not_covered', []),
         ),
         assumptions=spec.get('assumptions', []) + ['machine integers are modelled as bounded mathematical integers with overflow obligations; usize is 64 bit',
